@@ -72,6 +72,7 @@ def correspondence(run):
         tl.append(t)
     for _ in range(run.budget(150, 3000)):
         tl.append([parser_corr.gen_soup(rng)])
+    tl.extend([t] for t in parser_corr.neighbours())
     rep = run.ask(model_requests(tl))
     for t, m in zip(tl, rep):
         real = real_outcome(t)
@@ -236,7 +237,8 @@ def oracle(run):
         for sig, detail in c01.check_case(d, texts, marks):
             if sig == "C01:error-position-wrong":
                 run.violate("C07:compile-error-at-wrong-position", detail, {"sources": texts, "expected": list(exp)})
-    for t in CORPUS + gen_texts(run, run.budget(600, 20000)):
+    nb = parser_corr.neighbours()
+    for t in CORPUS + [[x] for x in (nb if getattr(run, 'escalated', False) or run.tier == 'thorough' else nb[::4])] + gen_texts(run, run.budget(600, 20000)):
         run.case(("oracle", tuple(t)), True, kind="text")
         for sig, detail in check_texts(t):
             run.violate(sig, detail, {"sources": t})
